@@ -481,6 +481,8 @@ enum Img {
     /// the little-endian u32 at this offset set to this (small) value and the image cut at its
     /// end by the difference: a length field that is consistent with a shortened last block
     TrimFix(usize, u32),
+    /// byte at this offset set to zero (an interior count field emptied)
+    Zero(usize),
     Mut([u64; 4]),
 }
 
@@ -522,6 +524,16 @@ thread_local! {
     static PLAN_NOTE: RefCell<String> = const { RefCell::new(String::new()) };
 }
 
+thread_local! {
+    /// offsets of interior count/length fields that the family's own `prepare` located in the valid
+    /// image (nested records behind the header); each is tried one up, one down and zeroed (step 2d)
+    static FIELD_OFFS: RefCell<Vec<usize>> = const { RefCell::new(Vec::new()) };
+}
+
+fn set_fields(v: Vec<usize>) {
+    FIELD_OFFS.with(|f| *f.borrow_mut() = v);
+}
+
 fn set_note(s: String) {
     PLAN_NOTE.with(|n| *n.borrow_mut() = s);
 }
@@ -536,6 +548,7 @@ fn plan(src: &mut zsim_core::Source, fam: &Family, scratch: &Rc<Scratch>) -> Res
     // drawn first so that nothing later shifts it: which of the run's distinct findings is reported
     let pick = cfg.below(1 << 16) as usize;
     set_note(String::new());
+    set_fields(Vec::new());
     // zipora's FSE encoder prints debugging lines to stdout; stdout is where the driver (rehash, eval)
     // and the case-runner child report, so it is pointed at /dev/null while the encoder runs
     let prep = {
@@ -615,6 +628,19 @@ fn plan(src: &mut zsim_core::Source, fam: &Family, scratch: &Rc<Scratch>) -> Res
             }
         }
     }
+    // (2d) interior count/length fields of nested records (located by the family's prepare): the first
+    //      byte of each one up, one down and zeroed, with the true length argument
+    let fields: Vec<usize> = FIELD_OFFS.with(|f| f.borrow().clone());
+    for &pos in fields.iter().filter(|&&q| q >= hdr && q < n).take(16) {
+        for up in [true, false] {
+            cases.push(CaseSpec { desc: format!("field-{}@{}", if up { "inc" } else { "dec" }, pos), kind: K_STEP, img: Img::Step(pos, up), len: lens[0].0, lab: lens[0].1 });
+            n_step += 1;
+        }
+        if p.bytes[pos] > 1 {
+            cases.push(CaseSpec { desc: format!("field-zero@{}", pos), kind: K_STEP, img: Img::Zero(pos), len: lens[0].0, lab: lens[0].1 });
+            n_step += 1;
+        }
+    }
     // (3) seeded damaged copies
     let mut ops = src.ops("ops", fam.ops);
     let mut n_ops = 0;
@@ -645,6 +671,11 @@ fn image(p: &Prepared, img: &Img) -> Vec<u8> {
             let n = v.len();
             v.truncate(n - cut);
             v[*off..*off + 4].copy_from_slice(&t.to_le_bytes());
+            v
+        }
+        Img::Zero(pos) => {
+            let mut v = p.bytes.clone();
+            v[*pos] = 0;
             v
         }
         Img::Mut(op) => mutate(&p.bytes, *op).0,
@@ -1281,6 +1312,29 @@ fn huff_frame_order_proof(b: &[u8]) -> Option<bool> {
     huff_table_order_proof(&b[4..4 + ts])
 }
 
+/// Offsets of the size field and of the symbol-count field of the first `max_trees` per-context trees
+/// in a serialised contextual Huffman model (same walk as `canon_ctx_huff`).
+fn ctx_huff_fields(ser: &[u8], max_trees: usize) -> Vec<usize> {
+    let rd = |o: usize| -> Option<usize> { ser.get(o..o + 4).map(|b| u32::from_le_bytes([b[0], b[1], b[2], b[3]]) as usize) };
+    let (Some(trees), Some(ctxs)) = (rd(1), rd(5)) else { return vec![] };
+    let mut off = 9usize.saturating_add(ctxs.saturating_mul(8));
+    let mut out = vec![];
+    for _ in 0..trees.min(max_trees) {
+        let Some(sz) = rd(off) else { break };
+        if off + 4 + sz > ser.len() {
+            break;
+        }
+        out.push(off);
+        if sz >= 2 {
+            // u16 symbol count: both bytes (a full 256-symbol tree stores 0x0100)
+            out.push(off + 4);
+            out.push(off + 5);
+        }
+        off += 4 + sz;
+    }
+    out
+}
+
 /// Same for `ContextualHuffmanEncoder::serialize`: context map entries by context, trees canonical.
 fn canon_ctx_huff(ser: &[u8]) -> Vec<u8> {
     // Not only the entry order: new_order1/new_order2 number the per-context trees in HashMap
@@ -1396,6 +1450,7 @@ fn prep_ctx_huffman_deser(cfg: &Chan, _s: &Rc<Scratch>) -> Result<Prepared, Stri
     let coded = enc.encode(&data).map_err(es)?;
     let x2 = if order == HuffmanOrder::Order1 { enc.encode_x2(&data).ok() } else { None };
     let bytes = canon_ctx_huff(&enc.serialize());
+    set_fields(ctx_huff_fields(&bytes, 4));
     let n = data.len();
     Ok(Prepared {
         target: format!("ContextualHuffmanEncoder::deserialize[{}]", oname),
@@ -2146,8 +2201,12 @@ use zipora::io::{
 fn seeded_u64s(cfg: &Chan) -> Vec<u64> {
     let mut r = Rng::new(cfg.below(1 << 30));
     let k = *cfg.pick(&[0usize, 1, 2, 3, 4, 5, 9, 33]);
-    let shape = cfg.below(3);
+    let shape = cfg.below(4);
     let mut cur = r.below(1000);
+    // shape 3: every value has the SAME byte width and the count fills whole groups of four (or one
+    // more): the widest selector / tag of a grouped or prefix-coded form, right up to the last byte
+    let width = [1u64, 2, 3, 4, 4, 4, 5, 8][r.below(8) as usize];
+    let k = if shape == 3 { [4usize, 8, 12, 5, 9, 16][r.below(6) as usize] } else { k };
     (0..k)
         .map(|_| match shape {
             0 => {
@@ -2158,7 +2217,12 @@ fn seeded_u64s(cfg: &Chan) -> Vec<u64> {
                 cur += r.below(300);
                 cur
             }
-            _ => r.below(200),
+            2 => r.below(200),
+            _ => {
+                let lo = if width == 1 { 0 } else { 1u64 << (8 * (width - 1)) };
+                let span = if width == 8 { u64::MAX - lo } else { (1u64 << (8 * width)) - lo };
+                lo + r.below(span.min(1 << 40))
+            }
         })
         .collect()
 }
@@ -3049,7 +3113,7 @@ fn families() -> Vec<Family> {
         Family { name: "pa_zip/match-stream", quick: 300, thorough: 18000, ops: 48, slow: false, hdr: HDR_STEP, prepare: prep_pz_matches },
         Family { name: "pa_zip/decompress", quick: 150, thorough: 9000, ops: 48, slow: false, hdr: HDR_STEP, prepare: prep_pazip },
         Family { name: "var_int/decode", quick: 400, thorough: 24000, ops: 48, slow: false, hdr: HDR_STEP, prepare: prep_var_int },
-        Family { name: "var_int_variants/decode", quick: 500, thorough: 30000, ops: 48, slow: false, hdr: HDR_STEP, prepare: prep_var_int_variants },
+        Family { name: "var_int_variants/decode", quick: 2000, thorough: 40000, ops: 48, slow: false, hdr: HDR_STEP, prepare: prep_var_int_variants },
         Family { name: "data_input/read", quick: 400, thorough: 24000, ops: 48, slow: false, hdr: HDR_STEP, prepare: prep_data_input },
         Family { name: "complex_types/deserialize", quick: 500, thorough: 30000, ops: 48, slow: false, hdr: HDR_STEP, prepare: prep_complex },
         Family { name: "complex_types/large-maps", quick: 32, thorough: 1920, ops: 24, slow: true, hdr: HDR_STEP, prepare: prep_complex_large },
